@@ -229,7 +229,7 @@ EVALS = [
     Ev('onset', ONSET.evaluate, _b_beat, _sz([(0, 0), (1, 1), (2, 2), (0, 1)], [(0, 0), (1, 1), (2, 2), (0, 1), (3, 3)]), ['onset.evaluate']),
     Ev('segment', SEG.evaluate, _b_segment, _sz([(1, 1, 1.0), (0, 1, 1.0), (1, 0, 1.0)], [(1, 1, 1.0), (0, 1, 1.0), (1, 0, 1.0), (2, 1, 1.0), (1, 2, 1.0), (1, 1, 1.5, 'free ref start')]),
        ['segment.evaluate', 'util.adjust_intervals'], exact_floats=False, timeout_s=1800),
-    Ev('chord', CHORD.evaluate, _b_chord, _sz([(1, 1), (2, 1), (1, 2), (0, 1), (1, 0)], [(1, 1), (2, 1), (1, 2), (0, 1), (1, 0), (2, 2), (3, 2)]),
+    Ev('chord', CHORD.evaluate, _b_chord, _sz([(1, 1), (2, 1), (1, 2), (0, 1), (1, 0)], [(1, 1), (2, 1), (1, 2), (0, 1), (1, 0), (2, 2)]),
        ['chord.evaluate', 'chord.merge_chord_intervals', 'util.adjust_intervals', 'util.merge_labeled_intervals'], timeout_s=1800),
     Ev('melody', MEL.evaluate, _b_melody, _sz([(0, 0), (1, 0), (2, 0), (1, 2), (2, 3)], [(0, 0), (1, 0), (2, 0), (3, 0), (1, 2), (2, 3), (3, 3)]),
        ['melody.evaluate', 'melody.to_cent_voicing', 'melody.resample_melody_series', 'melody.freq_to_voicing', 'melody.hz2cents'],
